@@ -40,8 +40,13 @@ Fixpoint items_ok (l : list item) : bool :=
   end.
 Definition render_items (l : list item) : list byte :=
   concat (map (fun it => render_word (fst it) ++ snd it) l).
+(* a word ends its input line when the separator after it begins with a newline - unless the last character of the line is a
+   blank: one quoted by a backslash belongs to the word, and the line still continues on the next one *)
+Definition eb_piece (p : piece) : bool := match p with B c => is_blank c | _ => false end.
+Definition eb_word (eb : bool) (w : word) : bool := fold_left (fun _ p => eb_piece p) w eb.
+Definition hard_item (it : item) : bool := hard_of (snd it) && negb (eb_word false (fst it)).
 Definition expected (l : list item) : list (list byte * bool) :=
-  map (fun it => (value_word (fst it), hard_of (snd it))) l.
+  map (fun it => (value_word (fst it), hard_item it)) l.
 
 (* reference splitter for -0 / -d *)
 Fixpoint split_on (d : byte) (cur : list byte) (data : list byte) : list (list byte) :=
